@@ -216,8 +216,14 @@ def _inline_lets(block, helpers_pure=False):
                 # only when the single use is in the very next statement, or the init is pure
                 ok = pure
                 if not ok and rest:
-                    c1, _d = _uses(rest[0], name)
-                    ok = c1 == 1
+                    # the use is in the next statement that is not itself a plain binding
+                    for st2 in rest:
+                        c1, _d = _uses(st2, name)
+                        if c1 == 1:
+                            ok = True
+                            break
+                        if st2["k"] != "Let" or _contains(st2, ("Try", "Return", "Break", "Continue", "Await", "Closure", "Macro")):
+                            break
                 if ok:
                     new_rest = [_subst(x, name, init) for x in rest]
                     stmts[i:] = new_rest
@@ -460,27 +466,49 @@ def binders_of(fn_node, node):
     return names
 
 
-def _mark(n, binders):
-    """scope-aware alpha-renaming: every binding occurrence gets its own label, references resolve to the innermost
-    binding; names bound outside `n` (free in it) are labelled by name"""
-    counter = [0]
+def _mark(n, binders, params=None):
+    """scope-aware renaming of local variables by *provenance*: a variable is named after what it is bound to, not
+    after its spelling - parameter i -> P<i>; pattern binding -> <constructor>.<field or position>; `let x = e` -> the
+    canonical text of e (hashed); closure parameter -> C<i>; loop variable -> F<position>. References resolve to the
+    innermost binding. Names bound outside `n` that are not parameters keep their spelling (marked as free)."""
+    import hashlib
 
-    def fresh(name):
-        counter[0] += 1
-        return "§b%d_%s§" % (counter[0], name)
-
-    def bind(p, env):
-        for x in _walk(p):
-            if x["k"] == "PIdent" and x["name"] in binders and not x["name"].startswith("§"):
-                lab = fresh(x["name"])
-                env[x["name"]] = lab
-                x["name"] = lab
+    def bind(p, env, kind, init_text=None):
+        def go(q, pos):
+            k = q["k"]
+            if k == "PIdent":
+                if q["name"] in binders and not q["name"].startswith("§"):
+                    if pos is None and kind == "let":
+                        lab = "§L%s§" % hashlib.sha1((init_text or "").encode()).hexdigest()[:8]
+                    elif pos is None:
+                        lab = "§%s§" % kind
+                    else:
+                        lab = "§%s§" % pos
+                    env[q["name"]] = lab
+                    q["name"] = lab
+                if "sub" in q:
+                    go(q["sub"], pos)
+            elif k == "PStruct":
+                for f in q["fields"]:
+                    go(f["pat"], (pos + "." if pos else "") + q["path"].split("::")[-1] + "." + f["member"])
+            elif k == "PTupleStruct":
+                for i2, e in enumerate(q["elems"]):
+                    go(e, (pos + "." if pos else "") + q["path"].split("::")[-1] + ".%d" % i2)
+            elif k in ("PTuple", "PSlice"):
+                for i2, e in enumerate(q["elems"]):
+                    go(e, (pos + "." if pos else kind + ".") + "%d" % i2)
+            elif k in ("PRef", "PType"):
+                go(q["pat"], pos)
+            elif k == "POr":
+                for c in q["cases"]:
+                    go(c, pos)
+        go(p, None)
 
     def ref(name, env):
         if name in env:
             return env[name]
         if name in binders:
-            return "§" + name + "§"
+            return "§free:" + name + "§"
         return None
 
     def toks(m, env):
@@ -491,6 +519,9 @@ def _mark(n, binders):
                 if r:
                     t["v"] = r
         m["_toktext"] = m["path"] + "!(" + tok_text(m["tokens"]) + ")"
+
+    def text_of(x):
+        return re.sub(r"[\s()]+", "", _plain_show(x))
 
     def go(x, env):
         if not is_node(x):
@@ -512,6 +543,8 @@ def _mark(n, binders):
         if k == "Macro":
             if "tokens" in x:
                 toks(x, env)
+                if "args" not in x:
+                    x["text"] = x["_toktext"][len(x["path"]) + 2:-1]
             if "args" in x and x.get("path") not in QUOTES:
                 for a in x["args"]:
                     go(a, env)
@@ -522,23 +555,25 @@ def _mark(n, binders):
                 go(st, e2)
             return
         if k == "Let":
+            it = None
             if "init" in x:
                 go(x["init"], env)
+                it = text_of(x["init"])
             if "else" in x:
                 go(x["else"], dict(env))
-            bind(x["pat"], env)
+            bind(x["pat"], env, "let", it)
             return
         if k == "Closure":
             e2 = dict(env)
-            for p in x["inputs"]:
-                bind(p, e2)
+            for i2, p in enumerate(x["inputs"]):
+                bind(p, e2, "C%d" % i2)
             go(x["body"], e2)
             return
         if k == "Match":
             go(x["scrutinee"], env)
             for a in x["arms"]:
                 e2 = dict(env)
-                bind(a["pat"], e2)
+                bind(a["pat"], e2, "m")
                 if a.get("guard"):
                     go(a["guard"], e2)
                 go(a["body"], e2)
@@ -546,27 +581,30 @@ def _mark(n, binders):
         if k == "ForLoop":
             go(x["iter"], env)
             e2 = dict(env)
-            bind(x["pat"], e2)
+            bind(x["pat"], e2, "F")
             go(x["body"], e2)
             return
         if k in ("If", "While") and is_node(x.get("cond")) and x["cond"]["k"] == "LetExpr":
             go(x["cond"]["expr"], env)
             e2 = dict(env)
-            bind(x["cond"]["pat"], e2)
+            bind(x["cond"]["pat"], e2, "m")
             go(x.get("then") or x.get("body"), e2)
             if x.get("else"):
                 go(x["else"], dict(env))
             return
         if k.startswith("P") and k != "Path":
-            # a pattern met outside a binding construct handled above
-            bind(x, env)
+            bind(x, env, "m")
             return
         for key, v in x.items():
             if key in ("tokens",):
                 continue
             if isinstance(v, (dict, list)):
                 go(v, env)
-    go(n, {})
+    env0 = {}
+    for i2, pn in enumerate(params or []):
+        if pn and pn != "self":
+            env0[pn] = "§P%d§" % i2
+    go(n, env0)
     return n
 
 
@@ -577,28 +615,17 @@ def _show(n):
     return _plain_show(n)
 
 
-_MACRO_PATCH = []
-
-
-def ctext(node, binders):
-    """canonical flat text of an (already normalised) node: local names replaced by positional placeholders"""
-    m = _mark(copy.deepcopy(node), binders)
-    # print macros from renamed tokens: temporarily give them a `text` derived from the tokens
-    for x in _walk(m):
-        if x["k"] == "Macro" and "_toktext" in x and "args" not in x:
-            x["text"] = x["_toktext"][len(x["path"]) + 2:-1]
-    s = _plain_show(m)
-    order = {}
-
-    def rep(mm):
-        nm = mm.group(1)
-        if nm not in order:
-            order[nm] = len(order)
-        return "§%d" % order[nm]
-    s = re.sub("§(\\w+?)§", rep, s)
+def _flat(s):
     s = re.sub(r"[\s()]+", "", s)
     s = re.sub(r";+", ";", s).replace(";}", "}").replace("};", "}")
     return s
+
+
+def ctext(node, binders, params=None):
+    """canonical flat text of an (already normalised) node taken on its own: variables named by provenance (see _mark);
+    names bound outside the node keep their spelling"""
+    m = _mark(copy.deepcopy(node), binders, params)
+    return _flat(_plain_show(m).replace("§free:", "§"))
 
 
 def arm_node(arm):
@@ -607,22 +634,24 @@ def arm_node(arm):
     return n
 
 
-def all_ctexts(norm_root, binders, minlen=6):
-    """canonical text of every node (and every match arm) of a normalised tree: oid -> text, and the set of texts.
-    An arm is keyed by the oid of its body with the prefix 'arm'."""
+def all_ctexts(norm_root, binders, minlen=6, params=None):
+    """canonical text of every node (and every match arm) of a normalised tree, computed in the context of the whole
+    tree (a variable used in a sub-expression is named after its binding site elsewhere in the function):
+    oid -> text, and the set of texts. An arm is keyed by the oid of its body with the prefix 'arm'."""
     by_oid = {}
     texts = set()
-    for x in _walk(norm_root):
+    marked = _mark(copy.deepcopy(norm_root), binders, params)
+    for x in _walk(marked):
         if x["k"].startswith("P") and x["k"] != "Path":
             continue
-        t = ctext(x, binders)
+        t = _flat(_plain_show(x).replace("§free:", "§"))
         if len(t) >= minlen:
             texts.add(t)
             if x.get("_oid") is not None:
                 by_oid.setdefault(x["_oid"], t)
         if x["k"] == "Match":
             for a in x["arms"]:
-                t = ctext(arm_node(a), binders)
+                t = _flat(_plain_show(arm_node(a)).replace("§free:", "§"))
                 texts.add(t)
                 b = a["body"]
                 if is_node(b) and b.get("_oid") is not None:
